@@ -46,6 +46,7 @@ type frame struct {
 	panicking bool
 	panic     any
 	phitemps  []Value
+	lenForks  map[*ssa.If]int // per activation: evaluations of a branch on the length of a symbolic string
 }
 
 func (fr *frame) get(key ssa.Value) Value {
@@ -396,6 +397,18 @@ func (fr *frame) visit(instr ssa.Instruction) continuation {
 		case bool:
 			b = c
 		case *Term:
+			if c.kind != KConst && !m.pcSet[c] && !m.pcSet[TNot(c)] && mentionsStrLen(c) {
+				// unwinding bound for loops whose trip count is the length of a symbolic string
+				// (hand-written byte scanners): the first lenUnwind iterations are explored, longer
+				// strings on this path are reported inconclusive
+				if fr.lenForks == nil {
+					fr.lenForks = map[*ssa.If]int{}
+				}
+				fr.lenForks[instr]++
+				if fr.lenForks[instr] > lenUnwind {
+					panic(abort(fmt.Sprintf("unwinding bound: loop over the length of a symbolic string (> %d iterations) at %s", lenUnwind-1, m.pos(instr.Pos()))))
+				}
+			}
 			b = m.branch(c)
 		default:
 			panic(abort(fmt.Sprintf("If on %T", c)))
@@ -784,3 +797,10 @@ func (m *Machine) summarise(caller *frame, pos token.Pos, fn *ssa.Function, args
 
 // opaqueCall: a method of a modelled library object reached through an interface value.
 type opaqueCall struct{ in intrinsic }
+
+// lenUnwind: evaluations of one length-dependent branch per function activation.
+var lenUnwind = 4
+
+func mentionsStrLen(t *Term) bool {
+	return len(subterms([]*Term{t}, func(x *Term) bool { return x.kind == KApp && x.op == "str.len" })) > 0
+}
